@@ -72,6 +72,10 @@ func c24Model(it c24Item) (flags map[string]any, additional []string, ok bool) {
 			}
 			i++
 			v := it.Params[i]
+			if v == "--" && it.AllowAdditional {
+				// `--` ends the flags: the flag before it has no value
+				return nil, nil, false
+			}
 			switch typ {
 			case "int":
 				n, err := strconv.Atoi(v)
@@ -157,6 +161,15 @@ func c24Gen(r *rand.Rand) c24Item {
 			if t := typeOf(f); t != "bool" {
 				if r.Intn(12) == 0 && i == n-1 {
 					continue // value missing at the very end
+				}
+				if r.Intn(10) == 0 && it.AllowAdditional {
+					// value missing because the flags are ended right after the flag
+					// (only where `--` ends the flags: otherwise it is just the value)
+					it.Params = append(it.Params, "--")
+					for j := r.Intn(3); j > 0; j-- {
+						it.Params = append(it.Params, []string{"tail", "7", "--f0"}[r.Intn(3)])
+					}
+					continue
 				}
 				it.Params = append(it.Params, value(t, r.Intn(12) == 0))
 			}
